@@ -47,6 +47,9 @@ type World struct {
 	Segmented bool
 	// PostRead: a scheduling point follows every read the gateway does on a client connection
 	PostRead bool
+	// ClientWindow > 0: the gateway's writes to a client block once that many bytes are unread (a client that
+	// stopped reading)
+	ClientWindow int
 }
 
 // NewWorld installs a fresh network.
@@ -237,6 +240,7 @@ func (w *World) Serve(name string, h http.Handler, method string, hdr http.Heade
 	cl, srv := vnet.NewPipe(name+":client", name+":gw", !w.Segmented)
 	srv.SetAddrs("10.9.9.9:443", remoteAddr)
 	srv.PostRead = w.PostRead
+	srv.Window = w.ClientWindow
 	r, _ := http.NewRequest("GET", "http://gw.example/remoteDesktopGateway/", nil)
 	r.Method = method
 	r.RemoteAddr = remoteAddr
